@@ -22,13 +22,13 @@ def gen_pair(rng, mode):
     nskel = rng.randint(1, 3)
     skels = []
     for s in range(nskel):
-        nn = rng.randint(1, 3)
+        nn = rng.randint(2, 3) if mode == 'ext2' else rng.randint(1, 3)
         nodes = [f's{s}n{j}' for j in range(nn)]
-        la = rng.choice([0, 0, 1])
+        la = rng.choice([2, 2, 0]) if mode == 'ext2' else rng.choice([0, 0, 1])
         ext = rng.sample(nodes, la)
         edges = []
         for k in range(rng.randint(0, 2)):
-            ar = rng.choice([0, 1])
+            ar = rng.choice([0, 1, 2]) if mode == 'ext2' else rng.choice([0, 1])
             att = rng.sample(nodes, ar)
             if edges and rng.random() < 0.4:
                 att = list(edges[-1]['att'])          # parallel nonterminal edges on the same node tuple
@@ -39,6 +39,9 @@ def gen_pair(rng, mode):
     elif mode == 'clash3':
         # three different pairs share the base name <X,Y,Z,W>
         names = [{'S': 0, 'X': 1, 'X,Y': 1, 'X,Y,Z': 1}, {'S': 0, 'Y,Z,W': 1, 'Z,W': 1, 'W': 1}]
+    elif mode == 'ext2':
+        # binary nonterminals: rules with two external nodes, listed in either order by either grammar
+        names = [{'S': 0, 'X': 1, 'R': 2, 'R2': 2}, {'S': 0, 'Y': 1, 'Q': 2}]
     else:
         names = [{'S': 0, 'X': 1, 'W': 0}, {'S': 0, 'Y': 1, 'V': 0}]
     tcount = [0]
@@ -77,7 +80,10 @@ def gen_pair(rng, mode):
                     tcount[0] += 1
                     tid = f't{si}_{k}' if mode == 'sharedterm' else f'g{gi}t{tcount[0]}'
                     edges.append({'id': tid, 'lab': t, 'att': rng.sample(sk['nodes'], len(typ))})
-                rules.append({'lhs': lhs, 'nodes': [{'id': n, 'l': 'T'} for n in sk['nodes']], 'edges': edges, 'ext': list(sk['ext'])})
+                rext = list(sk['ext'])
+                if mode == 'ext2' and len(rext) == 2 and rng.random() < 0.4:
+                    rext.reverse()          # same external NODES, other ORDER: not conjoinable with the unreversed twin
+                rules.append({'lhs': lhs, 'nodes': [{'id': n, 'l': 'T'} for n in sk['nodes']], 'edges': edges, 'ext': rext})
         if mode in ('clash', 'clash3') and gi == 0:
             els['<X,Y>'] = {'t': True, 'type': []}     # a terminal literally named like a pair
         return {'els': els, 'start': 'S', 'rules': rules}
@@ -167,11 +173,11 @@ def drive(args):
 
 def run(tier, seed):
     o = Outcome(PID, tier, seed)
-    o.assumptions = ['single node label; nonterminals of arity 0/1; up to 3 shared skeletons with up to 2 rules each per grammar',
+    o.assumptions = ['single node label; nonterminals of arity 0/1 (0/1/2 with two external nodes in either order in mode ext2); up to 3 shared skeletons with up to 2 rules each per grammar',
                      'the naming of nonterminal pairs is read from fggs.conjunction.nonterminal_pairs as a hint that TLC checks; without a working hint TLC searches all namings (up to 4 pairs)']
     rng = rng_for(seed, 'c17')
     n = 240 if tier == 'quick' else 3000
-    modes = ['plain', 'clash3', 'clash', 'sharedterm', 'self', 'self_implicit', 'conflict', 'plain']
+    modes = ['plain', 'clash3', 'clash', 'sharedterm', 'self', 'self_implicit', 'conflict', 'ext2']
     jobs = []
     for i in range(n):
         mode = modes[i % len(modes)]
